@@ -17,18 +17,23 @@ structure Node where
   log      : List Entry := []
   role     : Role := .follower
   tally    : List Nat := []
+  commit   : Nat := 0
 deriving Repr
 
 inductive Msg
   | voteReq (cand term lastIdx lastTerm : Nat)
   | voteResp (voter cand term : Nat) (granted : Bool)
-  | ae (ldr term prevIdx prevTerm : Nat) (es : List Entry)
+  | ae (ldr term prevIdx prevTerm : Nat) (es : List Entry) (lc : Nat)
+  | aeResp (flw ldr term lastCovered : Nat)
 deriving DecidableEq, Repr
 
 structure Ghost where
   grants  : List (Nat × Nat × Nat) := []          -- (voter, term, cand)
   elected : List (Nat × Nat × List Nat) := []     -- (term, leader, tallied voters)
   tl      : Nat → List Entry := fun _ => []       -- term log: the log of the leader of that term
+  acks    : List (Nat × Nat × Nat) := []          -- (server, term, index): acknowledged through index
+  glogs   : List (Nat × Nat × Nat × List Entry × Bool) := []
+      -- (voter, term, cand, voter's log when granting, nobody had yet won that term)
 
 structure Sys where
   nodes : Nat → Node
@@ -42,16 +47,16 @@ def lastTerm (l : List Entry) : Nat := match l.getLast? with | some e => e.term 
 def setNode (s : Sys) (i : Nat) (nd : Node) : Sys :=
   { s with nodes := fun j => if j = i then nd else s.nodes j }
 
-/-- outcome of the vote handler on node `nd` (pinned order: duplicate-vote check before log check).
-    `stage` models a crash/failed write inside persistVote: 0 = nothing of the vote persisted,
-    1 = only LastVoteTerm written, 2 = both written (normal). -/
+/-- outcome of the vote handler on node `nd` (repaired order: the log comparison comes before the
+    duplicate-vote branch, see F1).  `stage` models a crash/failed write inside persistVote:
+    0 = nothing of the vote persisted, 1 = only LastVoteTerm written, 2 = both written (normal). -/
 def handleVote (nd : Node) (c t li lt : Nat) (stage : Nat) : Node × Bool :=
   if t < nd.term then (nd, false) else
   let nd1 : Node := if nd.term < t then { nd with term := t, role := .follower, tally := [] } else nd
-  if nd1.voteTerm = t ∧ nd1.voteCand.isSome then
-    (nd1, nd1.voteCand = some c)
-  else if lt < lastTerm nd1.log then (nd1, false)
+  if lt < lastTerm nd1.log then (nd1, false)
   else if lastTerm nd1.log = lt ∧ li < nd1.log.length then (nd1, false)
+  else if nd1.voteTerm = t ∧ nd1.voteCand.isSome then
+    (nd1, nd1.voteCand = some c)
   else match stage with
     | 0 => (nd1, false)
     | 1 => ({ nd1 with voteTerm := t }, false)
@@ -77,8 +82,9 @@ def truncSuffix : List Entry → List Entry → List Entry
   | [], _ => []
   | x :: suf, e :: es => if x.term = e.term then x :: truncSuffix suf es else []
 
-/-- AppendEntries handler on the log part. `stage = 0`: crash after DeleteRange, before StoreLogs. -/
-def handleAE (nd : Node) (t prevIdx prevTerm : Nat) (es : List Entry) (stage : Nat) : Node × Bool :=
+/-- AppendEntries handler. `stage = 0`: crash after DeleteRange, before StoreLogs (volatile state lost).
+    Commit rule: the repaired one (F8) — only over entries this request covers, only upward. -/
+def handleAE (nd : Node) (t prevIdx prevTerm : Nat) (es : List Entry) (lc : Nat) (stage : Nat) : Node × Bool :=
   if t < nd.term then (nd, false) else
   let nd1 : Node := if nd.term < t ∨ nd.role ≠ .follower
                     then { nd with term := t, role := .follower, tally := [] } else nd
@@ -87,8 +93,9 @@ def handleAE (nd : Node) (t prevIdx prevTerm : Nat) (es : List Entry) (stage : N
     let pre := nd1.log.take prevIdx
     let suf := nd1.log.drop prevIdx
     match stage with
-    | 0 => ({ nd1 with log := pre ++ truncSuffix suf es }, false)
-    | _ => ({ nd1 with log := pre ++ mergeSuffix suf es }, true)
+    | 0 => ({ nd1 with log := pre ++ truncSuffix suf es, commit := 0 }, false)
+    | _ => ({ nd1 with log := pre ++ mergeSuffix suf es,
+                       commit := max nd1.commit (min lc (prevIdx + es.length)) }, true)
 
 inductive Label
   | timeout (i : Nat)
@@ -98,8 +105,9 @@ inductive Label
   | crash (i : Nat)
   | dup (m : Msg)
   | append (i p : Nat)
-  | sendAE (i prevIdx len : Nat)
-  | recvAE (j ldr t prevIdx prevTerm : Nat) (es : List Entry) (stage : Nat)
+  | sendAE (i prevIdx len lc : Nat)
+  | recvAE (j ldr t prevIdx prevTerm : Nat) (es : List Entry) (lc stage : Nat)
+  | advanceCommit (i k : Nat) (Q : List Nat)
 
 def enabled (n : Nat) (s : Sys) : Label → Prop
   | .timeout i => i < n
@@ -110,8 +118,13 @@ def enabled (n : Nat) (s : Sys) : Label → Prop
   | .crash i => i < n
   | .dup m => m ∈ s.net
   | .append i _ => i < n ∧ (s.nodes i).role = .leader
-  | .sendAE i prevIdx _ => i < n ∧ (s.nodes i).role = .leader ∧ prevIdx ≤ (s.nodes i).log.length
-  | .recvAE j ldr t prevIdx prevTerm es _ => j < n ∧ Msg.ae ldr t prevIdx prevTerm es ∈ s.net
+  | .sendAE i prevIdx _ lc => i < n ∧ (s.nodes i).role = .leader ∧ prevIdx ≤ (s.nodes i).log.length ∧
+      lc ≤ (s.nodes i).commit
+  | .recvAE j ldr t prevIdx prevTerm es lc _ => j < n ∧ Msg.ae ldr t prevIdx prevTerm es lc ∈ s.net
+  | .advanceCommit i k Q => i < n ∧ (s.nodes i).role = .leader ∧ Q.Nodup ∧ quorum n ≤ Q.length ∧
+      (∀ v ∈ Q, v < n ∧ (v = i ∨ ∃ k', k ≤ k' ∧ Msg.aeResp v i (s.nodes i).term k' ∈ s.net)) ∧
+      1 ≤ k ∧ k ≤ (s.nodes i).log.length ∧ termAt (s.nodes i).log k = (s.nodes i).term ∧
+      (s.nodes i).commit ≤ k
 
 def apply (n : Nat) (s : Sys) : Label → Sys
   | .timeout i =>
@@ -120,17 +133,20 @@ def apply (n : Nat) (s : Sys) : Label → Sys
       { (setNode s i { nd with term := t, voteTerm := t, voteCand := some i,
                                 role := .candidate, tally := [i] }) with
         net := Msg.voteReq i t nd.log.length (lastTerm nd.log) :: s.net,
-        ghost := { s.ghost with grants := (i, t, i) :: s.ghost.grants } }
+        ghost := { s.ghost with grants := (i, t, i) :: s.ghost.grants,
+                                glogs := (i, t, i, nd.log, decide (∀ x ∈ s.ghost.elected, x.1 ≠ t)) :: s.ghost.glogs } }
   | .timeoutCrash i k =>
       let nd := s.nodes i
       let t := nd.term + 1
       setNode s i { nd with term := t, voteTerm := if k = 0 then nd.voteTerm else t,
-                            role := .follower, tally := [] }
+                            role := .follower, tally := [], commit := 0 }
   | .voteReq j c t li lt stage =>
       let r := handleVote (s.nodes j) c t li lt stage
       { (setNode s j r.1) with
         net := Msg.voteResp j c t r.2 :: s.net,
-        ghost := if r.2 then { s.ghost with grants := (j, t, c) :: s.ghost.grants } else s.ghost }
+        ghost := if r.2 then { s.ghost with grants := (j, t, c) :: s.ghost.grants,
+                                            glogs := (j, t, c, r.1.log, decide (∀ x ∈ s.ghost.elected, x.1 ≠ t)) :: s.ghost.glogs }
+                 else s.ghost }
   | .voteResp i v t =>
       let nd := s.nodes i
       let tl := if v ∈ nd.tally then nd.tally else v :: nd.tally
@@ -138,20 +154,26 @@ def apply (n : Nat) (s : Sys) : Label → Sys
       let lg := if won then nd.log ++ [⟨t, 0⟩] else nd.log          -- the new leader's no-op
       { (setNode s i { nd with tally := tl, role := if won then .leader else .candidate, log := lg }) with
         ghost := if won then { s.ghost with elected := (t, i, tl) :: s.ghost.elected,
-                                            tl := fun u => if u = t then lg else s.ghost.tl u }
+                                            tl := fun u => if u = t then lg else s.ghost.tl u,
+                                            acks := (i, t, lg.length) :: s.ghost.acks }
                  else s.ghost }
-  | .crash i => setNode s i { (s.nodes i) with role := .follower, tally := [] }
+  | .crash i => setNode s i { (s.nodes i) with role := .follower, tally := [], commit := 0 }
   | .dup m => { s with net := m :: s.net }
   | .append i p =>
       let nd := s.nodes i
       let lg := nd.log ++ [⟨nd.term, p⟩]
       { (setNode s i { nd with log := lg }) with
-        ghost := { s.ghost with tl := fun u => if u = nd.term then lg else s.ghost.tl u } }
-  | .sendAE i prevIdx len =>
+        ghost := { s.ghost with tl := fun u => if u = nd.term then lg else s.ghost.tl u,
+                                acks := (i, nd.term, lg.length) :: s.ghost.acks } }
+  | .sendAE i prevIdx len lc =>
       let nd := s.nodes i
-      { s with net := Msg.ae i nd.term prevIdx (termAt nd.log prevIdx) ((nd.log.drop prevIdx).take len) :: s.net }
-  | .recvAE j _ t prevIdx prevTerm es stage =>
-      setNode s j (handleAE (s.nodes j) t prevIdx prevTerm es stage).1
+      { s with net := Msg.ae i nd.term prevIdx (termAt nd.log prevIdx) ((nd.log.drop prevIdx).take len) lc :: s.net }
+  | .recvAE j ldr t prevIdx prevTerm es lc stage =>
+      let r := handleAE (s.nodes j) t prevIdx prevTerm es lc stage
+      { (setNode s j r.1) with
+        net := if r.2 then Msg.aeResp j ldr t (prevIdx + es.length) :: s.net else s.net,
+        ghost := if r.2 then { s.ghost with acks := (j, t, prevIdx + es.length) :: s.ghost.acks } else s.ghost }
+  | .advanceCommit i k _ => setNode s i { (s.nodes i) with commit := k }
 
 def Step (n : Nat) (s s' : Sys) : Prop := ∃ l, enabled n s l ∧ s' = apply n s l
 
